@@ -54,12 +54,23 @@ RULE_DEC = ("one case = one stream (valid, mutated, truncated or random) driven 
             "non-trivial = every case (distinct stream x schedule set)")
 
 
+def gen_streams(c, valid_only):
+    """TLC generates streams from the grammar spec (and checks generator/acceptor agreement)."""
+    c.model_check("MC_GenAcc", "MC_GenAcc.cfg" if thorough(c) else "MC_GenAcc_quick.cfg", workers=8, timeout=2400)
+    n = 1200 if thorough(c) else 260
+    return c.generate("MC_GenAcc", "MC_GenAcc_simvalid.cfg" if valid_only else "MC_GenAcc_sim.cfg", n, 400)
+
+
 def check_C03(c):
+    g = gen_streams(c, True)
+    c.scenario("genstreams", extra=["--in", g])
     c.scenario("entrypoints")
     return c.finish("model_checking", RULE_DEC, TRUST)
 
 
 def check_C04(c):
+    g = gen_streams(c, False)
+    c.scenario("genstreams_c04", extra=["--in", g])
     c.scenario("invalid")
     return c.finish("model_checking", RULE_DEC, TRUST)
 
